@@ -235,8 +235,7 @@ func (s *State) poolNewField(p Ptr) *FuncV {
 
 func stubPoolGet(s *State, a []Value) Value {
 	v := stubPoolGet1(s, a)
-	seen := map[int]bool{}
-	s.reachableFrom(v, seen)
+	seen := s.ownedBuffers(v)
 	if s.owned == nil {
 		s.owned = map[int]bool{}
 	}
@@ -315,9 +314,7 @@ func stubPoolPut(s *State, a []Value) Value {
 		}
 	}
 	s.pools[p.Obj] = append(s.pools[p.Obj][:len(s.pools[p.Obj]):len(s.pools[p.Obj])], v)
-	seen := map[int]bool{}
-	s.reachableFrom(v, seen)
-	for id := range seen {
+	for id := range s.ownedBuffers(v) {
 		delete(s.owned, id)
 	}
 	s.poison(v)
